@@ -50,14 +50,20 @@ type Case struct {
 	AltBase bool   `json:"alt_base,omitempty"`
 	Op      string `json:"op,omitempty"` // state | data | current
 
+	// second family: before the judged lookup the SAME Datasource performs a
+	// lookup (position PrevQ) while the server has only published the states up
+	// to PrevUpTo; then the rest appears. Nothing of the first lookup may stick.
+	PrevUpTo int `json:"prev_up_to,omitempty"`
+	PrevQ    int `json:"prev_q,omitempty"`
+
 	// informational (ignored on replay)
 	Present string `json:"present,omitempty"`
 	Time    string `json:"time,omitempty"`
 }
 
 func (c Case) fingerprint() string {
-	return fmt.Sprintf("%s|%d|%d|%x|%d|%d|%d|%d|%d|%d|%d|%v|%s", c.Family, c.Kind, c.N, c.Mask, c.Q,
-		c.GapStart, c.GapLen, c.DT, c.FaultAt, c.FaultKind, c.Seq, c.AltBase, c.Op)
+	return fmt.Sprintf("%s|%d|%d|%x|%d|%d|%d|%d|%d|%d|%d|%v|%s|%d|%d", c.Family, c.Kind, c.N, c.Mask, c.Q,
+		c.GapStart, c.GapLen, c.DT, c.FaultAt, c.FaultKind, c.Seq, c.AltBase, c.Op, c.PrevUpTo, c.PrevQ)
 }
 
 func (c Case) dir() *dir {
@@ -154,9 +160,39 @@ var capOnce sync.Once
 // runSearch performs one lookup. budget bounds the number of answered
 // requests; faultAt > 0 makes that request fail.
 func runSearch(d *dir, t time.Time, budget, faultAt, faultKind int) result {
+	return runSearchAfter(nil, time.Time{}, d, t, budget, faultAt, faultKind)
+}
+
+type switchRT struct{ cur http.RoundTripper }
+
+func (s *switchRT) RoundTrip(req *http.Request) (*http.Response, error) { return s.cur.RoundTrip(req) }
+
+// lookup calls the StateAt function of the directory's kind.
+func lookup(ds *replication.Datasource, kind int, t time.Time) (uint64, *replication.State, error) {
+	ctx := context.Background()
+	switch kind {
+	case kMinute:
+		n, st, err := ds.MinuteStateAt(ctx, t)
+		return uint64(n), st, err
+	case kHour:
+		n, st, err := ds.HourStateAt(ctx, t)
+		return uint64(n), st, err
+	case kDay:
+		n, st, err := ds.DayStateAt(ctx, t)
+		return uint64(n), st, err
+	}
+	n, st, err := ds.ChangesetStateAt(ctx, t)
+	return uint64(n), st, err
+}
+
+// runSearchAfter: with warm != nil the same Datasource (and http.Client) first
+// looks up warmT in the directory warm (what the server had published so far);
+// its outcome is not judged, its requests are not counted.
+func runSearchAfter(warm *dir, warmT time.Time, dJudged *dir, t time.Time, budget, faultAt, faultKind int) result {
 	var res result
 	tr := &fakehttp.Transport{Budget: budget}
-	tr.Handler = func(n int, req *http.Request) (fakehttp.Response, bool) {
+	d := dJudged
+	serve := func(d *dir, n int, req *http.Request, res *result) (fakehttp.Response, bool) {
 		u := req.URL.String()
 		seq, current, ok := d.parseStateURL(u)
 		if !ok || req.Method != http.MethodGet {
@@ -165,7 +201,7 @@ func runSearch(d *dir, t time.Time, budget, faultAt, faultKind int) result {
 			}
 			return fakehttp.Response{Status: 404}, true
 		}
-		if n == faultAt {
+		if n == faultAt && d == dJudged {
 			if faultKind == faultTransport {
 				return fakehttp.Response{Err: errInjected}, true
 			}
@@ -180,7 +216,29 @@ func runSearch(d *dir, t time.Time, budget, faultAt, faultKind int) result {
 		}
 		return fakehttp.Response{Body: stateBodyNumbered(d.Kind, seq, d.ts(int(seq)), true)}, true
 	}
-	ds := &replication.Datasource{BaseURL: d.Base, Client: tr.Client()}
+	tr.Handler = func(n int, req *http.Request) (fakehttp.Response, bool) { return serve(d, n, req, &res) }
+	sw := &switchRT{cur: tr}
+	client := tr.Client()
+	client.Transport = sw
+	ds := &replication.Datasource{BaseURL: d.Base, Client: client}
+	if warm != nil {
+		wtr := &fakehttp.Transport{Budget: budget}
+		var wres result
+		wtr.Handler = func(n int, req *http.Request) (fakehttp.Response, bool) { return serve(warm, n, req, &wres) }
+		sw.cur = wtr
+		wdone := make(chan struct{})
+		go func() {
+			defer func() { recover(); close(wdone) }()
+			lookup(ds, warm.Kind, warmT)
+		}()
+		select {
+		case <-wdone:
+		case <-time.After(watchdog):
+			res.Hung = true
+			return res
+		}
+		sw.cur = tr
+	}
 
 	type out struct {
 		seq uint64
@@ -197,21 +255,7 @@ func runSearch(d *dir, t time.Time, budget, faultAt, faultKind int) result {
 			}
 			done <- o
 		}()
-		ctx := context.Background()
-		switch d.Kind {
-		case kMinute:
-			n, st, err := ds.MinuteStateAt(ctx, t)
-			o.seq, o.st, o.err = uint64(n), st, err
-		case kHour:
-			n, st, err := ds.HourStateAt(ctx, t)
-			o.seq, o.st, o.err = uint64(n), st, err
-		case kDay:
-			n, st, err := ds.DayStateAt(ctx, t)
-			o.seq, o.st, o.err = uint64(n), st, err
-		case kChangesets:
-			n, st, err := ds.ChangesetStateAt(ctx, t)
-			o.seq, o.st, o.err = uint64(n), st, err
-		}
+		o.seq, o.st, o.err = lookup(ds, d.Kind, t)
 	}()
 	timer := time.NewTimer(watchdog)
 	select {
@@ -339,7 +383,16 @@ func checkSearch(r *kit.Run, c Case) {
 	r.Add("searches_"+c.Family, 1)
 
 	budget := budgetFor(c)
-	res := runSearch(d, t, budget, 0, 0)
+	var warm *dir
+	var warmT time.Time
+	if c.PrevUpTo > 0 {
+		warm = c.dir()
+		warm.Mask &= 1<<uint(c.PrevUpTo) - 1
+		pc := c
+		pc.Q = c.PrevQ
+		warmT = pc.queryTime(warm)
+	}
+	res := runSearchAfter(warm, warmT, d, t, budget, 0, 0)
 	r.Add("requests_total", int64(len(res.Reqs)))
 	sit := d.situation(t)
 	ac := c.annotate(d)
@@ -348,10 +401,15 @@ func checkSearch(r *kit.Run, c Case) {
 			"requests": trace(res.Reqs, d, 40), "budget": budget})
 	}
 	desc := fmt.Sprintf("%s states %s, t=%s (%s)", kindDir[c.Kind], ac.Present, ac.Time, sit)
+	second := ""
+	if warm != nil {
+		desc += fmt.Sprintf(", second lookup of one Datasource (first: position %d while only the states up to %d were published)", c.PrevQ, c.PrevUpTo)
+		second = "/second-lookup-on-one-datasource"
+	}
 
 	if res.Hung {
 		// last resort: no verdict from the request budget. Confirm once.
-		res2 := runSearch(d, t, budget, 0, 0)
+		res2 := runSearchAfter(warm, warmT, d, t, budget, 0, 0)
 		if res2.Hung {
 			atomic.AddInt64(&hangs, 1)
 			viol(r, "nonterminating/no-requests/"+sit,
@@ -412,7 +470,9 @@ func checkSearch(r *kit.Run, c Case) {
 		}
 		// the recorded findBound give-up defect gets its own key, and only when
 		// the answer is exactly the one that defect produces for this input
+		how += second
 		if g, ok := d.knownGiveUp(t); ok && uint64(g) == res.State.SeqNum {
+			// the same defect, whether or not the Datasource was used before
 			how = "findBound-gives-up-and-returns-its-upper-bound"
 		}
 		viol(r, "wrong-state/"+sit+"/"+how,
@@ -696,6 +756,31 @@ func smallCases(n int) []Case {
 	return cs
 }
 
+// secondCases: every presence pattern over 1..n x every split point m (the
+// server had published the states up to m when the first lookup ran; at least
+// one of them exists and at least one later state exists) x first lookups at
+// the old newest state's time and after it x every query position of the
+// second lookup from the old newest state on.
+func secondCases(n int) []Case {
+	var cs []Case
+	for kind := 0; kind < nKinds; kind++ {
+		for mask := uint64(1); mask < 1<<uint(n); mask++ {
+			for m := 1; m < n; m++ {
+				old := mask & (1<<uint(m) - 1)
+				if old == 0 || mask>>uint(m) == 0 {
+					continue
+				}
+				for _, pq := range []int{2*m - 1, 2 * m, 2 * n} {
+					for q := 2*m - 1; q <= 2*n; q++ {
+						cs = append(cs, Case{Family: "second", Kind: kind, N: n, Mask: mask, Q: q, PrevUpTo: m, PrevQ: pq})
+					}
+				}
+			}
+		}
+	}
+	return cs
+}
+
 // bisectPath lists the sequence numbers a plain bisection of 1..n looks at on
 // its way to q, plus the ends and q itself.
 func bisectPath(n, q int) []int {
@@ -796,6 +881,7 @@ func main() {
 			"timestamps strictly increasing) x every query position (before state 1, at each sequence number's time, 1 s after each) x " +
 			"{minute,hour,day,changesets}; large family: N in {1000,65537,2000000}, all states present except one run of 1/2/5 missing files " +
 			"placed on or next to every sequence number a plain bisection towards the target looks at, query at the target's time and +-1 s; " +
+			"second family: every presence pattern over 1..5 (7 thorough) x every split point (states up to m published when a first lookup ran on the SAME Datasource, the rest published afterwards) x every later query position; " +
 			"fault family: every request index of every lookup over 1..Nf fails once with a 500 and once with a transport error; " +
 			"url family: direct state/data/current fetches at fixed sequence numbers with default and custom base URL. " +
 			"A lookup is non-trivial when at least two states exist and t is not after the newest (the answer is not forced); " +
@@ -810,7 +896,7 @@ func main() {
 			var c Case
 			r.LoadReplay(&c)
 			switch c.Family {
-			case "small", "large":
+			case "small", "large", "second":
 				checkSearch(r, c)
 			case "fault":
 				checkFault(r, c)
@@ -845,6 +931,14 @@ func main() {
 		r.Par(len(small), func(i int) {
 			if !skip(r) {
 				checkSearch(r, small[i])
+			}
+		})
+
+		second := secondCases(r.Pick(5, 7))
+		r.Set("cases_second_lookup_same_datasource", len(second))
+		r.Par(len(second), func(i int) {
+			if !skip(r) {
+				checkSearch(r, second[i])
 			}
 		})
 
